@@ -61,16 +61,28 @@ def main():
         plugins = [p for p in plugins if p.COMPONENT == comp] or plugins[:1]
     t0 = time.time()
     results = []
-    for plugin in plugins:
-        work = tempfile.mkdtemp(prefix="celma_verif_%s_" % prop)
-        try:
-            r = run(plugin, prop, args.tier, seed, work, args.replay, time.time())
-        finally:
-            if not args.keep:
-                shutil.rmtree(work, ignore_errors=True)
-        if args.replay:
-            return r
-        results.append(r)
+    # a translator-tied property regenerates lean/CelmaVerif/Generated/*.lean from the tree it is run against and
+    # then builds and executes what was generated: such runs (on /repo or, with CELMA_REPO, on another tree) are
+    # serialised, so that no run ever builds or executes the tables of another run's tree
+    genlock = None
+    if any(p.PROPERTIES[prop].get("translators") for p in plugins):
+        import fcntl
+        genlock = open(os.path.join(LEAN, ".gen.lock"), "w")
+        fcntl.flock(genlock, fcntl.LOCK_EX)
+    try:
+        for plugin in plugins:
+            work = tempfile.mkdtemp(prefix="celma_verif_%s_" % prop)
+            try:
+                r = run(plugin, prop, args.tier, seed, work, args.replay, time.time())
+            finally:
+                if not args.keep:
+                    shutil.rmtree(work, ignore_errors=True)
+            if args.replay:
+                return r
+            results.append(r)
+    finally:
+        if genlock is not None:
+            genlock.close()
     ev = merge_evidence([r["ev"] for r in results])
     ev["wall_s"] = round(time.time() - t0, 2)
     # evidence/<id>.json describes runs against /repo itself; a run against another tree (CELMA_REPO, used to try
